@@ -1317,3 +1317,16 @@ package server
 //@   requires self != nil
 //@   ensures C10.relay.match,C03.relay.match: forallref(t, TextServerProtocol, implies(t.lockRequestId != old(t.lockRequestId), istype(command, *protocol.LockResultCommand) && old(t.lockRequestId) == astype(command, *protocol.LockResultCommand).ResultCommand.RequestId))
 //@   modifies all
+
+// C03: once a reply has been handed to a text connection's waiter, the connection has no outstanding request:
+// the outstanding id is cleared on every path, so a later asynchronous reply for the same request is dropped
+// by ProcessLockResultCommandLocked instead of being parked as the answer to the next command
+//@ func (*TextServerProtocol).ProcessLockResultCommand
+//@   requires self != nil && lockCommand != nil
+//@   ensures C03.text.cleared: forall(k, 0, 16, self.lockRequestId[k] == 0)
+//@   ensures C13.text.cleared: true
+//@   modifies all
+//@ func (*TextServerProtocol).ProcessLockResultCommandLocked
+//@   requires self != nil && command != nil
+//@   at call TextServerProtocol.ProcessLockResultCommand assert C03.text.outstanding: command.RequestId == self.lockRequestId
+//@   modifies all
